@@ -210,6 +210,30 @@ class CallMixin:
         return self.call_dynamic(fv, args, kwargs, st, node)
 
     def call_dynamic(self, fv, args, kwargs, st, node):
+        """a callee held in a variable / module binding: resolved when the path condition pins it to one known function"""
+        from .state import entails, STATIC
+        if fv.k in ("val", "ref"):
+            r = self.as_ref(fv, st)
+            isref = Val.is_R(fv.t) if fv.k == "val" else z3.BoolVal(True)
+            hyps = st.hyps()
+            for name, sid in list(STATIC.items()):
+                if name.startswith("func:") and name[5:] in self.contracts:
+                    if entails(hyps, z3.And(isref, r == sid)):
+                        st.log.append(("dispatch", name[5:], getattr(node, "lineno", 0)))
+                        return self.apply_contract(self.contracts[name[5:]], args, kwargs, st, node)
+            for name, sid in list(STATIC.items()):
+                if name.startswith("ext:") and name[4:] in self.ext_models:
+                    if entails(hyps, z3.And(isref, r == sid)):
+                        st.log.append(("dispatch", name[4:], getattr(node, "lineno", 0)))
+                        return self.ext_models[name[4:]](self, st, args, kwargs, node)
+            code = st.read("function.code", r, Int)
+            for name, sid in list(STATIC.items()):
+                if name.startswith("code:") and name[5:] in self.contracts:
+                    if entails(hyps, z3.And(isref, code == sid)):
+                        st.log.append(("dispatch", name[5:], getattr(node, "lineno", 0), r))
+                        c = self.contracts[name[5:]]
+                        return self.apply_contract(c, [V("ref", r, cls="function")] + list(args) if c.params and c.params[0][0] == "__closure__"
+                                                   else args, kwargs, st, node)
         raise Unsupported(f"{self.where(node)}: call of a computed callee {fv!r}")
 
     def call_lambda(self, fv, args, kwargs, st, node):
@@ -228,7 +252,13 @@ class CallMixin:
         return res
 
     def call_closure(self, fv, args, kwargs, st, node):
-        raise Unsupported(f"{self.where(node)}: call of a local closure (give it a contract)")
+        qual = fv.xs[1]
+        c = self.contracts.get(qual)
+        if c is None:
+            raise Unsupported(f"{self.where(node)}: call of a local closure {qual} (give it a contract)")
+        if c.params and c.params[0][0] == "__closure__":
+            args = [V("ref", fv.t, cls="function")] + list(args)
+        return self.apply_contract(c, args, kwargs, st, node)
 
     def call_repo(self, qual, args, kwargs, st, node):
         c = self.contracts.get(qual)
@@ -250,12 +280,15 @@ class CallMixin:
             if a is None:
                 ext = self.external_base_method(cls, name)
                 if ext is not None:
-                    return self.call_builtin(ext, [recv] + list(args), kwargs, st, node)
+                    return self.ext_methods[(ext[1], name)](self, st, recv, args, kwargs, node)
                 raise Unsupported(f"{self.where(node)}: method {cls}.{name} not found")
             return self.dispatch_method(recv, cls, name, args, kwargs, st, node)
         return self.call_builtin_method(recv, name, args, kwargs, st, node)
 
     def external_base_method(self, cls, name):
+        for k in self.repo.cls(cls)["mro"]:
+            if (k, name) in self.ext_methods:
+                return ("method", k)
         return None
 
     def dispatch_method(self, recv, cls, name, args, kwargs, st, node):
@@ -385,6 +418,7 @@ class CallMixin:
     def _apply_contract(self, c, args, kwargs, st, node):
         env = self.bind_params(c, args, kwargs, st, node)
         self.calls_seen.append((self.cur_fn, c.qual))
+        st.log.append(("call-begin", c.qual, dict(env), None, getattr(node, "lineno", 0)))
         pre = st.fork()
         pre.env = env
         # preconditions are obligations of the caller
@@ -444,12 +478,14 @@ class CallMixin:
 
     def havoc_modifies(self, c, st, env):
         for m in c.modifies:
-            saved = st.env
+            saved, saved_mod = st.env, self.cur_mod
             st.env = dict(env)
+            if self._spec_mod is not None:
+                self.cur_mod = self._spec_mod
             try:
                 self.havoc_target(m, st, None)
             finally:
-                st.env = saved
+                st.env, self.cur_mod = saved, saved_mod
 
     def spec_value_in(self, text, st, env, old):
         saved_env, saved_mod = st.env, self.cur_mod
